@@ -167,12 +167,27 @@ def _start_coverage(repo):
 
 
 def _in_library(tb) -> bool:
-    """True when the innermost frame of the traceback is library (tdgl) code."""
+    """True when the exception left library (tdgl) code: walking from the innermost frame outwards and skipping
+    third-party / standard-library frames, the first frame that belongs either to the library or to the harness is a
+    library frame (numpy or scipy raising inside a call made by tdgl is the library's exception, not the harness')."""
     frames = traceback.extract_tb(tb)
-    if not frames:
-        return False
-    fn = frames[-1].filename
-    return os.path.join(os.path.realpath(REPO), "tdgl") in os.path.realpath(fn)
+    lib = os.path.join(os.path.realpath(REPO), "tdgl") + os.sep
+    own = os.path.join(str(VERIF), "mc") + os.sep
+    for fr in reversed(frames):
+        fn = os.path.realpath(fr.filename)
+        if fn.startswith(lib):
+            return True
+        if fn.startswith(own):
+            return False
+    return False
+
+
+def _lib_frame(frames):
+    lib = os.path.join(os.path.realpath(REPO), "tdgl") + os.sep
+    for fr in reversed(frames):
+        if os.path.realpath(fr.filename).startswith(lib):
+            return os.path.basename(fr.filename) + ":" + fr.name
+    return os.path.basename(frames[-1].filename) + ":" + frames[-1].name
 
 
 def run_one(cid, case):
@@ -202,7 +217,7 @@ def run_one(cid, case):
             r.violate(
                 "library-exception",
                 exc=type(exc).__name__,
-                where=os.path.basename(frames[-1].filename) + ":" + frames[-1].name,
+                where=_lib_frame(frames),
                 detail={"traceback": text},
             )
             packed = r.pack()
